@@ -1,12 +1,12 @@
 SPECIFICATION Spec
 CONSTANTS
   FmlaErrorRead = TRUE
-  RowSet = {0, 1, 1048575}
-  ColSet = {0, 127, 128, 16383}
-  Vals = {1, 23}
+  RowSet = {0, 7, 1048575}
+  ColSet = {0, 16383}
+  Vals = {1, 23, 32}
   Ign = "none"
   MaxRows = 3
-  MaxCells = 2
+  MaxCells = 1
   MaxIgn = 0
   Pres = "one"
   MaxArea = 1100000
